@@ -31,7 +31,7 @@ pub uninterp spec fn payload_desc(pid: int) -> PayloadDesc;
 #[verifier::external_body] #[verifier::accept_recursive_types(A)] pub struct TaskFnObj<A> { p: core::marker::PhantomData<A> }
 impl<A> TaskFnObj<A> { pub uninterp spec fn pid(&self) -> int; }
 pub uninterp spec fn task_uid(code: int, cap0: int, cap1: int) -> int;   // ghost identity of a payload closure object: which literal over which message and slot
-impl ClosureObj { pub uninterp spec fn cap1(&self) -> int; pub open spec fn uid(&self) -> int { task_uid(self.code(), self.cap0(), self.cap1()) } }
+impl ClosureObj { pub open spec fn uid(&self) -> int { task_uid(self.code(), self.cap0(), self.cap1()) } }
 impl<A> BoxNew<ClosureObj> for TaskFnObj<A> {
     open spec fn boxed_ok(t: &ClosureObj, r: &Self) -> bool { r.pid() == t.uid() && payload_desc(r.pid()) == PayloadDesc { code: t.code(), mid: t.cap0(), slot: t.cap1() } }
     #[verifier::external_body] fn box_new_(t: ClosureObj) -> (r: Self) { unimplemented!() }
